@@ -230,10 +230,23 @@ fn corr_field<B: RF>(r: &mut Rng, maxlog: u32, thorough: bool, o: &mut Out) {
             for b in [1usize, 2, 4, 8] { if n * b <= 1usize << (maxlog + 2) { blowups.push(b); } }
             for b in [16usize, 32, 64, 128] { if n * b <= 1usize << (maxlog + 1) && n <= 16 { blowups.push(b); } }
         }
+        if n >= 1024 && !thorough {
+            // the seven vectors of the reduced set are spread over blowups {1,2} and offsets {GENERATOR, random}
+            for (i, (_, v)) in kinds(r, p, n, 1).into_iter().enumerate() {
+                let (off, b) = (offs[1 + i % 2], 1 + (i / 2) % 2);
+                o.line("eval_off", format!("{} std {:x} {} {}", f, off, b, hu(&v)), do_eval_off::<B>(&v, &tw, off, b));
+            }
+            if n == 1024 {
+                let v = rand_vec(r, p, n);
+                o.line("eval_off", format!("{} std {:x} {} {}", f, offs[1], 4, hu(&v)), do_eval_off::<B>(&v, &tw, offs[1], 4));
+            }
+            continue;
+        }
         for &b in &blowups {
             let big = n >= 1024;
-            let lvl = if big { if b <= 2 { 1 } else { 2 } } else if n * b <= 128 { 0 } else if n * b <= 1024 { 1 } else { 2 };
+            let lvl = if big { if b <= 2 { 1 } else { 2 } } else if n * b <= 64 { 0 } else if n * b <= 512 { 1 } else { 2 };
             for (i, (_, v)) in kinds(r, p, n, lvl).into_iter().enumerate() {
+                if !thorough && n * b >= 4096 && i == 0 { continue; }
                 let off = if big { offs[1 + i % 2] } else { offs[(i + b.trailing_zeros() as usize) % 4] };
                 o.line("eval_off", format!("{} std {:x} {} {}", f, off, b, hu(&v)), do_eval_off::<B>(&v, &tw, off, b));
             }
@@ -275,7 +288,7 @@ fn corr_field<B: RF>(r: &mut Rng, maxlog: u32, thorough: bool, o: &mut Out) {
     }
     // fft_raw
     let cap = 1usize << maxlog;
-    let mut raw = |o: &mut Out, r: &mut Rng, size: usize, count: usize, stride: usize, offset: usize, v: Option<Vec<u128>>, tws: Option<Vec<u128>>| {
+    let raw = |o: &mut Out, r: &mut Rng, size: usize, count: usize, stride: usize, offset: usize, v: Option<Vec<u128>>, tws: Option<Vec<u128>>| {
         let len = size * stride;
         let v = v.unwrap_or_else(|| rand_vec(r, p, len));
         let (twl, tw): (String, Vec<B>) = match tws { None => ("std".into(), tw_std::<B>(size)), Some(t) => (hu(&t), tov(&t)) };
@@ -283,13 +296,18 @@ fn corr_field<B: RF>(r: &mut Rng, maxlog: u32, thorough: bool, o: &mut Out) {
     };
     for k in 1..=maxlog {
         let n = 1usize << k;
-        for (_, v) in kinds(r, p, n, if n >= 64 { 1 } else { 0 }) { raw(o, r, n, 1, 1, 0, Some(v), None); }
+        for (_, v) in kinds(r, p, n, if n >= 256 { 2 } else if n >= 64 { 1 } else { 0 }) { raw(o, r, n, 1, 1, 0, Some(v), None); }
     }
     for stride in [2usize, 4, 128, 256, 512] {
         let mut size = 2;
         while size * stride <= cap {
-            raw(o, r, size, stride, stride, 0, None, None);
-            if f == "f64" { raw(o, r, size, stride, stride, 0, Some((0..(size * stride) as u128).collect()), None); }
+            // all sizes for the large strides (two-call branch), a thinned ladder for strides 2 and 4
+            let keep = stride >= 128 || size <= 16 || size * stride == cap || size * stride == 512;
+            // lengths above 2^10 for one field only, except where needed to reach the two-call branch
+            if keep && (size * stride <= 1024 || f == "f64" || (stride == 512 && size == 4)) {
+                raw(o, r, size, stride, stride, 0, None, None);
+                if f == "f64" && size * stride <= 256 { raw(o, r, size, stride, stride, 0, Some((0..(size * stride) as u128).collect()), None); }
+            }
             size *= 2;
         }
     }
@@ -300,11 +318,11 @@ fn corr_field<B: RF>(r: &mut Rng, maxlog: u32, thorough: bool, o: &mut Out) {
         }
     }
     let strides = [1usize, 2, 3, 4, 5, 8, 16, 256, 512];
-    for _ in 0..40 {
+    for _ in 0..36 {
         let stride = *r.pick(&strides);
         let maxj = ((cap / stride) as u64).checked_ilog2().unwrap_or(0);
         if maxj < 1 { continue; }
-        let j = 1 + r.below((maxj as u64).min(if stride >= 256 { 3 } else { 7 })) as u32;
+        let j = 1 + r.below((maxj as u64).min(if stride >= 256 { 2 } else { 5 })) as u32;
         let size = 1usize << j;
         let offset = r.below(stride as u64) as usize;
         let count = 1 + r.below((stride - offset) as u64) as usize;
@@ -375,7 +393,10 @@ fn corr_field<B: RF>(r: &mut Rng, maxlog: u32, thorough: bool, o: &mut Out) {
     for nb in [8usize, 1, 2, 3, 4] {
         let maxc = if nb == 8 { 40 } else { 9 };
         for c in 1..=maxc {
-            let (nrows, blowup) = combos[(c * 5 + fidx * 7 + nb) % combos.len()];
+            let (mut nrows, blowup) = combos[(c * 5 + fidx * 7 + nb) % combos.len()];
+            // wide matrices only over the smaller domains (output volume)
+            while c > 12 && nrows * blowup > 32 { nrows /= 2; }
+            if c > 20 && c % 3 != fidx { continue; }
             rowmat_case::<B>(r, o, nb, c, nrows, blowup);
         }
         // every (nrows, blowup) combination at least once for a partial last segment
@@ -448,9 +469,326 @@ fn corr(seed: u64, maxlog: u32, thorough: bool) {
     }
 }
 
-// FALSIFY-BEGIN
-fn falsify(_seed: u64, _maxlog: u32, _thorough: bool, _prog: &Progress) -> (u64, u64) { (0, 0) }
-// FALSIFY-END
+// ---------------------------------------------------------------- falsifier: Horner oracle, no FFT anywhere
+/// Element types under test. The oracle value type `V` is a residue (u128, arithmetic by refmath) for the
+/// base fields and the element itself (the crate's own field arithmetic) for the extension fields.
+trait Elem<B: RF>: FieldElement<BaseField = B> {
+    type V: Copy + PartialEq;
+    fn name() -> String;
+    fn v_parts(parts: &[u128]) -> Self::V;
+    fn v_to_e(v: Self::V) -> Self;
+    fn e_to_v(e: Self) -> Self::V;
+    fn v_mul_base(v: Self::V, x: u128) -> Self::V;
+    fn v_add(a: Self::V, b: Self::V) -> Self::V;
+    fn v_show(v: Self::V) -> String;
+}
+impl<B: RF> Elem<B> for B {
+    type V = u128;
+    fn name() -> String { B::NAME.to_string() }
+    fn v_parts(parts: &[u128]) -> u128 { parts[0] % B::P }
+    fn v_to_e(v: u128) -> Self { B::fu(v) }
+    fn e_to_v(e: Self) -> u128 { e.tu() }
+    fn v_mul_base(v: u128, x: u128) -> u128 { mulmod(v, x, B::P) }
+    fn v_add(a: u128, b: u128) -> u128 { addmod(a, b, B::P) }
+    fn v_show(v: u128) -> String { format!("{:x}", v) }
+}
+impl<B: RF + ExtensibleField<2>> Elem<B> for QuadExtension<B> {
+    type V = Self;
+    fn name() -> String { format!("quad_{}", B::NAME) }
+    fn v_parts(parts: &[u128]) -> Self { QuadExtension::new(B::fu(parts[0]), B::fu(parts[1])) }
+    fn v_to_e(v: Self) -> Self { v }
+    fn e_to_v(e: Self) -> Self { e }
+    fn v_mul_base(v: Self, x: u128) -> Self { v * Self::from(B::fu(x)) }
+    fn v_add(a: Self, b: Self) -> Self { a + b }
+    fn v_show(v: Self) -> String { let b = v.to_base_elements(); format!("{:x}:{:x}", b[0].tu(), b[1].tu()) }
+}
+impl<B: RF + ExtensibleField<3>> Elem<B> for CubeExtension<B> {
+    type V = Self;
+    fn name() -> String { format!("cube_{}", B::NAME) }
+    fn v_parts(parts: &[u128]) -> Self { CubeExtension::new(B::fu(parts[0]), B::fu(parts[1]), B::fu(parts[2])) }
+    fn v_to_e(v: Self) -> Self { v }
+    fn e_to_v(e: Self) -> Self { e }
+    fn v_mul_base(v: Self, x: u128) -> Self { v * Self::from(B::fu(x)) }
+    fn v_add(a: Self, b: Self) -> Self { a + b }
+    fn v_show(v: Self) -> String { let b = v.to_base_elements(); format!("{:x}:{:x}:{:x}", b[0].tu(), b[1].tu(), b[2].tu()) }
+}
+
+struct Ctx { evals: u64, fails: u64, printed: u64, prog: Progress, quick: bool, seed: u64, roots_ok: BTreeSet<(&'static str, u32)> }
+impl Ctx {
+    fn fail(&mut self, what: &str, input: String, expected: String, actual: String) {
+        self.fails += 1;
+        if self.printed < 300 {
+            self.printed += 1;
+            println!("{{\"what\":{},\"input\":{},\"expected\":{},\"actual\":{}}}", jstr(what), jstr(&format!("seed={} {}", self.seed, input)), jstr(&expected), jstr(&actual));
+        }
+    }
+    /// library's 2^k-th root of unity as a residue, checked once per (field, k) by refmath
+    fn root<B: RF>(&mut self, k: u32) -> u128 {
+        let g = B::get_root_of_unity(k).tu();
+        if self.roots_ok.insert((B::NAME, k)) {
+            let (one, m1) = (powmod(g, 1u128 << k, B::P), powmod(g, 1u128 << (k - 1), B::P));
+            if one != 1 || m1 != B::P - 1 {
+                self.fail("get_root_of_unity is not a primitive 2^k-th root", format!("{} k={}", B::NAME, k), "g^(2^k)=1, g^(2^(k-1))=p-1".into(), format!("g={:x}", g));
+            }
+        }
+        g
+    }
+}
+
+fn zero_v<B: RF, E: Elem<B>>() -> E::V { E::v_parts(&[0, 0, 0]) }
+fn horner<B: RF, E: Elem<B>>(poly: &[E::V], x: u128) -> E::V {
+    let mut acc = zero_v::<B, E>();
+    for c in poly.iter().rev() { acc = E::v_add(E::v_mul_base(acc, x), *c); }
+    acc
+}
+fn to_e<B: RF, E: Elem<B>>(v: &[E::V]) -> Vec<E> { v.iter().map(|&x| E::v_to_e(x)).collect() }
+fn to_v<B: RF, E: Elem<B>>(v: &[E]) -> Vec<E::V> { v.iter().map(|&x| E::e_to_v(x)).collect() }
+
+/// lift a base-field coefficient vector to the element type (extension parts: zero for structured kinds, random otherwise)
+fn lift<B: RF, E: Elem<B>>(r: &mut Rng, kind: &str, v: &[u128]) -> Vec<E::V> {
+    let structured = kind.starts_with("unit") || kind == "ones";
+    v.iter().map(|&x| {
+        let mut parts = [x, 0, 0];
+        if E::EXTENSION_DEGREE > 1 && !structured {
+            let b = boundary_vals(B::P);
+            for q in parts.iter_mut().skip(1) { *q = if kind == "boundary" { *r.pick(&b) } else { rand_elem(r, B::P) }; }
+        }
+        E::v_parts(&parts)
+    }).collect()
+}
+fn rand_poly<B: RF, E: Elem<B>>(r: &mut Rng, n: usize) -> Vec<E::V> { let v = rand_vec(r, B::P, n); lift::<B, E>(r, "random", &v) }
+
+/// number of output points at which a length-`n` polynomial is compared against Horner
+fn npts<B: RF, E: Elem<B>>(n: usize) -> usize {
+    if B::SLOW && E::EXTENSION_DEGREE == 1 { (4096 / n).clamp(4, 64).min(n) } else if n <= 256 { n } else { 64 }
+}
+fn sample(r: &mut Rng, n: usize, k: usize) -> Vec<usize> {
+    if k >= n { return (0..n).collect(); }
+    let mut s: BTreeSet<usize> = [0usize, 1, n / 2, n - 1].into_iter().filter(|&i| i < n).collect();
+    while s.len() < k.max(4).min(n) { s.insert(r.below(n as u64) as usize); }
+    s.into_iter().collect()
+}
+
+/// compare `actual[i]` with `expected(i)` on the given indices; one evaluation
+fn check_points<B: RF, E: Elem<B>>(ctx: &mut Ctx, what: &str, desc: &str, actual: &[E], idxs: &[usize], expected: &mut dyn FnMut(usize) -> E::V) {
+    ctx.evals += 1;
+    for &i in idxs {
+        if i >= actual.len() {
+            ctx.fail(what, format!("{} first_bad_index={}", desc, i), format!("length > {}", i), format!("length {}", actual.len()));
+            return;
+        }
+        let want = expected(i);
+        let got = E::e_to_v(actual[i]);
+        if got != want {
+            ctx.fail(what, format!("{} first_bad_index={}", desc, i), E::v_show(want), E::v_show(got));
+            return;
+        }
+    }
+}
+fn panicked(ctx: &mut Ctx, what: &str, desc: &str, msg: &str) {
+    ctx.evals += 1;
+    ctx.fail(what, desc.to_string(), "no panic".into(), format!("panic: {}", msg));
+}
+
+// (a) evaluate_poly == Horner at g^i
+fn check_eval<B: RF, E: Elem<B>>(ctx: &mut Ctx, r: &mut Rng, maxlog: u32) {
+    let p = B::P;
+    let fname = E::name();
+    let base = E::EXTENSION_DEGREE == 1;
+    let sweep_max: u32 = if !base { 5 } else if B::SLOW { if ctx.quick { 8 } else { 10 } } else { 10 };
+    for k in 1..=maxlog {
+        let n = 1usize << k;
+        ctx.prog.step(|| format!("{} evaluate_poly n={}", fname, n));
+        let g = ctx.root::<B>(k);
+        let tw = fft::get_twiddles::<B>(n);
+        // unit vectors: e_j evaluates to x_i^j = (g^j)^i at every point
+        let js: Vec<usize> = if k <= sweep_max.min(maxlog) { (0..n).collect() } else {
+            let mut s: BTreeSet<usize> = [0, 1, n / 2, n - 1].into_iter().collect();
+            s.insert(r.below(n as u64) as usize);
+            s.into_iter().collect()
+        };
+        let all: Vec<usize> = (0..n).collect();
+        for &j in &js {
+            let mut v: Vec<E> = vec![E::ZERO; n];
+            v[j] = E::ONE;
+            let desc = format!("{} evaluate_poly n={} vec=unit#{}", fname, n, j);
+            match catch(AssertUnwindSafe(|| { fft::evaluate_poly(&mut v, &tw); v })) {
+                Err(m) => panicked(ctx, "evaluate_poly panics", &desc, &m),
+                Ok(res) => {
+                    let gj = powmod(g, j as u128, p);
+                    let mut cur = 1u128;
+                    let mut last = 0usize;
+                    check_points::<B, E>(ctx, "evaluate_poly != direct evaluation", &desc, &res, &all, &mut |i| {
+                        while last < i { cur = mulmod(cur, gj, p); last += 1; }
+                        let mut parts = [cur, 0, 0];
+                        parts[0] = cur;
+                        E::v_parts(&parts)
+                    });
+                }
+            }
+        }
+        // other vectors: Horner at all / sampled points
+        let ks = if n <= 32 { let mut x = kinds(r, p, n, 0); x.retain(|(l, _)| !l.starts_with("unit")); x } else {
+            let mut x = kinds(r, p, n, 1); x.retain(|(l, _)| !l.starts_with("unit"));
+            x.push(("allpm1".into(), vec![p - 1; n]));
+            x.push(("iota".into(), (0..n).map(|i| (i as u128 + 1) % p).collect()));
+            x
+        };
+        for (vi, (label, bv)) in ks.into_iter().enumerate() {
+            let poly = lift::<B, E>(r, &label, &bv);
+            let mut v: Vec<E> = to_e::<B, E>(&poly);
+            let desc = format!("{} evaluate_poly n={} vec={}#{}", fname, n, label, vi);
+            match catch(AssertUnwindSafe(|| { fft::evaluate_poly(&mut v, &tw); v })) {
+                Err(m) => panicked(ctx, "evaluate_poly panics", &desc, &m),
+                Ok(res) => {
+                    let idxs = sample(r, n, npts::<B, E>(n));
+                    check_points::<B, E>(ctx, "evaluate_poly != direct evaluation", &desc, &res, &idxs, &mut |i| horner::<B, E>(&poly, powmod(g, i as u128, p)));
+                    if res.len() != n { ctx.fail("evaluate_poly changes the length", desc.clone(), n.to_string(), res.len().to_string()); }
+                }
+            }
+        }
+    }
+}
+
+// (b) evaluate_poly_with_offset == Horner at offset * g^i, g of order n * blowup
+fn check_eval_off<B: RF, E: Elem<B>>(ctx: &mut Ctx, r: &mut Rng, maxlog: u32) {
+    let p = B::P;
+    let fname = E::name();
+    for k in 1..=maxlog {
+        let n = 1usize << k;
+        let tw = fft::get_twiddles::<B>(n);
+        let blowups: Vec<usize> = if !ctx.quick || n <= 64 { vec![1, 2, 4, 8, 16, 32, 64, 128] } else { vec![1, 2, 8] };
+        let offs = offsets::<B>(r);
+        for (bi, &b) in blowups.iter().enumerate() {
+            let kk = k + b.trailing_zeros();
+            if kk > B::TWO_ADICITY { continue; }
+            ctx.prog.step(|| format!("{} evaluate_poly_with_offset n={} blowup={}", fname, n, b));
+            let g = ctx.root::<B>(kk);
+            let nvec = if n <= 64 { 4 } else { 3 };
+            for vi in 0..nvec {
+                let off = offs[(vi + bi) % 4];
+                let (label, bv): (String, Vec<u128>) = match vi { 0 => ("random".into(), rand_vec(r, p, n)), 1 => ("boundary".into(), boundary_vec(r, p, n)),
+                    2 => { let j = r.below(n as u64) as usize; (format!("unit{}", j), unit(n, j)) }, _ => ("random".into(), rand_vec(r, p, n)) };
+                let poly = lift::<B, E>(r, &label, &bv);
+                let v: Vec<E> = to_e::<B, E>(&poly);
+                let desc = format!("{} evaluate_poly_with_offset n={} off={:x} blowup={} vec={}#{}", fname, n, off, b, label, vi);
+                match catch(AssertUnwindSafe(|| fft::evaluate_poly_with_offset(&v, &tw, B::fu(off), b))) {
+                    Err(m) => panicked(ctx, "evaluate_poly_with_offset panics", &desc, &m),
+                    Ok(res) => {
+                        if res.len() != n * b { ctx.fail("evaluate_poly_with_offset: wrong result length", desc.clone(), (n * b).to_string(), res.len().to_string()); continue; }
+                        let want_pts = if n * b <= 256 { n * b } else { npts::<B, E>(n) };
+                        let idxs = sample(r, n * b, want_pts);
+                        check_points::<B, E>(ctx, "evaluate_poly_with_offset != direct evaluation", &desc, &res, &idxs, &mut |i| horner::<B, E>(&poly, mulmod(off, powmod(g, i as u128, p), p)));
+                    }
+                }
+            }
+        }
+    }
+}
+
+/// oracle evaluations of `poly` over offset * <g>, |<g>| = 2^k (all points)
+fn oracle_evals<B: RF, E: Elem<B>>(poly: &[E::V], g: u128, k: u32, off: u128) -> Vec<E::V> {
+    let mut x = off % B::P;
+    (0..1usize << k).map(|_| { let y = horner::<B, E>(poly, x); x = mulmod(x, g, B::P); y }).collect()
+}
+
+// (c) interpolation inverts evaluation
+fn check_interp<B: RF, E: Elem<B>>(ctx: &mut Ctx, r: &mut Rng, maxlog: u32) {
+    let p = B::P;
+    let fname = E::name();
+    let slow = B::SLOW && E::EXTENSION_DEGREE == 1;
+    for k in 1..=maxlog {
+        let n = 1usize << k;
+        ctx.prog.step(|| format!("{} interpolate n={}", fname, n));
+        let g = ctx.root::<B>(k);
+        let (tw, itw) = (fft::get_twiddles::<B>(n), fft::get_inv_twiddles::<B>(n));
+        let offs = offsets::<B>(r);
+        let all: Vec<usize> = (0..n).collect();
+        // interpolate(evaluate(p)) == p
+        for vi in 0..2 {
+            let poly = if vi == 0 { rand_poly::<B, E>(r, n) } else { let b = boundary_vec(r, p, n); lift::<B, E>(r, "boundary", &b) };
+            let mut v: Vec<E> = to_e::<B, E>(&poly);
+            let desc = format!("{} interpolate_poly(evaluate_poly(p)) n={} vec={}#{}", fname, n, if vi == 0 { "random" } else { "boundary" }, vi);
+            match catch(AssertUnwindSafe(|| { fft::evaluate_poly(&mut v, &tw); fft::interpolate_poly(&mut v, &itw); v })) {
+                Err(m) => panicked(ctx, "interpolate_poly(evaluate_poly) panics", &desc, &m),
+                Ok(res) => check_points::<B, E>(ctx, "interpolate_poly(evaluate_poly(p)) != p", &desc, &res, &all, &mut |i| poly[i]),
+            }
+        }
+        // interpolation of oracle evaluations over cosets recovers the polynomial
+        let oracle_ok = if slow { n <= 64 } else { n <= 512 };
+        for (oi, &off) in offs.iter().enumerate() {
+            if n > 512 && oi % 2 == 0 && ctx.quick { continue; }
+            let poly = rand_poly::<B, E>(r, n);
+            let src = if oracle_ok { "oracle" } else { "evaluate_poly_with_offset" };
+            let evals: Vec<E> = if oracle_ok { to_e::<B, E>(&oracle_evals::<B, E>(&poly, g, k, off)) } else {
+                let pe = to_e::<B, E>(&poly);
+                match catch(AssertUnwindSafe(|| fft::evaluate_poly_with_offset(&pe, &tw, B::fu(off), 1))) { Ok(e) => e, Err(m) => { panicked(ctx, "evaluate_poly_with_offset panics", &format!("{} n={} off={:x} blowup=1", fname, n, off), &m); continue; } }
+            };
+            let desc = format!("{} interpolate_poly_with_offset n={} off={:x} evals={} vec=random#{}", fname, n, off, src, oi);
+            let mut v = evals.clone();
+            match catch(AssertUnwindSafe(|| { fft::interpolate_poly_with_offset(&mut v, &itw, B::fu(off)); v })) {
+                Err(m) => panicked(ctx, "interpolate_poly_with_offset panics", &desc, &m),
+                Ok(res) => check_points::<B, E>(ctx, "interpolate_poly_with_offset(evals of p) != p", &desc, &res, &all, &mut |i| poly[i]),
+            }
+            if off == 1 {
+                let desc = format!("{} interpolate_poly n={} evals={} vec=random#{}", fname, n, src, oi);
+                let mut v = evals.clone();
+                match catch(AssertUnwindSafe(|| { fft::interpolate_poly(&mut v, &itw); v })) {
+                    Err(m) => panicked(ctx, "interpolate_poly panics", &desc, &m),
+                    Ok(res) => check_points::<B, E>(ctx, "interpolate_poly(evals of p) != p", &desc, &res, &all, &mut |i| poly[i]),
+                }
+            }
+        }
+        // arbitrary values: the interpolant takes the prescribed values
+        for vi in 0..3usize {
+            let off = if vi == 0 { 1 } else { offs[vi] };
+            let vals = if vi == 2 { let b = boundary_vec(r, p, n); lift::<B, E>(r, "boundary", &b) } else { rand_poly::<B, E>(r, n) };
+            let mut v: Vec<E> = to_e::<B, E>(&vals);
+            let desc = format!("{} interpolate{} n={} off={:x} vec={}#{}", fname, if vi == 0 { "_poly" } else { "_poly_with_offset" }, n, off, if vi == 2 { "boundary" } else { "random" }, vi);
+            let res = catch(AssertUnwindSafe(|| { if vi == 0 { fft::interpolate_poly(&mut v, &itw) } else { fft::interpolate_poly_with_offset(&mut v, &itw, B::fu(off)) }; v }));
+            match res {
+                Err(m) => panicked(ctx, "interpolation panics", &desc, &m),
+                Ok(q) => {
+                    let qv = to_v::<B, E>(&q);
+                    let idxs = sample(r, n, npts::<B, E>(n));
+                    let vals_e: Vec<E> = to_e::<B, E>(&vals);
+                    // here "actual" is the prescribed value and "expected" the interpolant evaluated by Horner
+                    check_points::<B, E>(ctx, "interpolant does not take the prescribed values (expected = Horner(interpolant, x_i), actual = v[i])", &desc, &vals_e, &idxs,
+                        &mut |i| horner::<B, E>(&qv, mulmod(off, powmod(g, i as u128, p), p)));
+                }
+            }
+        }
+    }
+}
+
+// FALSIFY-PART-B
+fn falsify(seed: u64, maxlog: u32, thorough: bool, prog: &Progress) -> (u64, u64) {
+    let mut ctx = Ctx { evals: 0, fails: 0, printed: 0, prog: prog.clone(), quick: !thorough, seed, roots_ok: BTreeSet::new() };
+    let mut r = Rng::new(seed);
+    let t0 = std::time::Instant::now();
+    let timing = std::env::var("C09_STATS").is_ok();
+    macro_rules! section { ($name:expr, $e:expr) => {{ let t = std::time::Instant::now(); let e0 = ctx.evals; $e; if timing { eprintln!("{:40} {:8.2}s evals={}", $name, t.elapsed().as_secs_f64(), ctx.evals - e0); } }}; }
+    macro_rules! per_type { ($f:ident) => {{
+        section!(concat!(stringify!($f), " f64"), $f::<f64::BaseElement, f64::BaseElement>(&mut ctx, &mut r, maxlog));
+        section!(concat!(stringify!($f), " f62"), $f::<f62::BaseElement, f62::BaseElement>(&mut ctx, &mut r, maxlog));
+        section!(concat!(stringify!($f), " f128"), $f::<f128::BaseElement, f128::BaseElement>(&mut ctx, &mut r, maxlog));
+        section!(concat!(stringify!($f), " quad f64"), $f::<f64::BaseElement, QuadExtension<f64::BaseElement>>(&mut ctx, &mut r, maxlog));
+        section!(concat!(stringify!($f), " cube f64"), $f::<f64::BaseElement, CubeExtension<f64::BaseElement>>(&mut ctx, &mut r, maxlog));
+        section!(concat!(stringify!($f), " quad f62"), $f::<f62::BaseElement, QuadExtension<f62::BaseElement>>(&mut ctx, &mut r, maxlog));
+        if CubeExtension::<f62::BaseElement>::is_supported() {
+            section!(concat!(stringify!($f), " cube f62"), $f::<f62::BaseElement, CubeExtension<f62::BaseElement>>(&mut ctx, &mut r, maxlog));
+        }
+        section!(concat!(stringify!($f), " quad f128"), $f::<f128::BaseElement, QuadExtension<f128::BaseElement>>(&mut ctx, &mut r, maxlog));
+        if CubeExtension::<f128::BaseElement>::is_supported() {
+            section!(concat!(stringify!($f), " cube f128"), $f::<f128::BaseElement, CubeExtension<f128::BaseElement>>(&mut ctx, &mut r, maxlog));
+        }
+    }}; }
+    per_type!(check_eval);
+    per_type!(check_eval_off);
+    per_type!(check_interp);
+    if timing { eprintln!("total {:.2}s", t0.elapsed().as_secs_f64()); }
+    (ctx.evals, ctx.fails)
+}
 
 fn main() {
     silence_panics();
